@@ -102,7 +102,9 @@ PROPS = {
                 rule="generated ELF32-BE files: 1-4 ascending non-overlapping PT_LOADs (gaps 0.., adjacent, filesz 0..512 / 64 KiB in thorough, bss tails), 0-2 non-load headers at any position, shuffled file offsets and section order, .got of 0-16 (64) entries anywhere in a segment incl. its bss tail, unaligned / partial sizes, entry values incl. 0 and sums carrying into the top byte; the real elf::load is run on each file; the COMPLETE non-zero DRAM contents and any change outside DRAM are compared with the image recomputed by TLC from the abstract description", assumptions=COMMON_ASSUME + ["the harness's ELF writer encodes the abstract description correctly (the loader's own parser reads it back; cross-checked with readelf in the self-test)"]),
     "C12": dict(tv_timeout=3600, mc=[dict(module="MC_Loader.tla", cfg="MC_Loader.cfg", workers=14)], drivers=[dict(name="elf", module="TraceElf.tla", args=["elf-load", "--tier", "{tier}", "--out", "{out}", "--threads", "{threads}", "--seed", "{seed}"])],
                 rule="as C11, with .stack sizes {0,1,3,4,5,0x400,0xFFFF,0x10000,random}, symbol tables of 1-24 (200) symbols with ___exit first / last / anywhere and near-miss names, argument strings of 0-10 (32) words with runs of blanks/tabs, leading/trailing white space, words up to 60 (200) bytes; ER0/1/2/5/7, exit address, argv table and strings, layout predicates", assumptions=COMMON_ASSUME),
-    "C10": dict(gen=[dict(name="sched", module="MC_Intc.tla", cfg="Gen_Irq_t.cfg", cfg_q="Gen_Irq_q.cfg")],
+    "C10": dict(lemmas=[dict(module="IntcLemma.tla", runs=[["--cinit=ConstInit", "--init=Init", "--inv=IndInv", "--length=0"],
+                                                            ["--cinit=ConstInit", "--init=IndInit", "--inv=IndInv", "--length=1"]])],
+                gen=[dict(name="sched", module="MC_Intc.tla", cfg="Gen_Irq_t.cfg", cfg_q="Gen_Irq_q.cfg")],
                 mc=[dict(module="MC_Intc.tla", cfg="MC_Intc.cfg"), dict(module="MC_System.tla", cfg="MC_System.cfg", workers=6), dict(module="MC_System.tla", cfg="MC_System_live.cfg", workers=1)],
                 drivers=[dict(name="irq", module="TraceRun.tla", args=["irq-replay", "--tier", "{tier}", "--in", "{sched}", "--out", "{out}", "--threads", "{threads}", "--seed", "{seed}"])],
                 count_traces="histories",
